@@ -50,6 +50,8 @@ import (
 	"github.com/codenotary/immudb/embedded/sql"
 	"github.com/codenotary/immudb/embedded/store"
 	"verif/mc/lib"
+	"verif/mc/sched"
+	"verif/mc/sqlconc"
 )
 
 var c *lib.Check
@@ -923,6 +925,20 @@ func note(op int, wasOpen, engErr bool) {
 
 func main() {
 	c = lib.New("C13", "model_checking", 100*time.Second, 25*time.Minute)
+	if sched.IsWorker() {
+		sqlconc.Phase(c, "C13", 0, 1) // shard worker of the concurrent-sessions phase: does not return
+	}
+	if c.ReplayPath != "" {
+		var sr struct {
+			Scenario string `json:"scenario"`
+		}
+		c.LoadReplay(&sr)
+		if sr.Scenario != "" {
+			sqlconc.Phase(c, "C13", 0, 1) // schedule replay: does not return
+		}
+	}
+	fullDeadline := c.Deadline
+	c.Deadline = c.Start.Add(fullDeadline.Sub(c.Start) * 65 / 100) // the sequential phases get 65% of the budget
 	debug.SetGCPercent(50) // measured: fresh stores allocate large zeroed buffers, a small heap avoids page faults
 	c.Assume("sequential part only: one session drives the transaction, a second session only through the single atomic 'outside:' transaction; real concurrency is the scheduler phase")
 	c.Assume("the property fixes one snapshot per transaction but not the moment it is taken: after an outside commit the transaction may see all of it or nothing of it (then consistently); a COMMIT after an outside commit may fail or succeed")
@@ -964,7 +980,17 @@ func main() {
 	phaseEngine(fullDepth, extra, lastOps)
 	wg.Wait()
 	flushKnownDefects(true)
-	// (a concurrent-sessions phase under the controlled scheduler goes here)
+	// concurrent sessions under the controlled scheduler (engine E1, package sqlconc)
+	seqDone := !c.Expired()
+	c.Deadline = fullDeadline
+	bound, each := 1, 15*time.Second
+	if c.Thorough() {
+		bound, each = 2, 120*time.Second
+	}
+	sqlconc.Phase(c, "C13", each, bound)
+	if !seqDone {
+		c.CapHit("sequential phases stopped at their share of the time budget")
+	}
 	cleanup()
 	c.Finish(fmt.Sprintf("engine front: every program over the %d-statement alphabet up to engine_full_depth_completed statements, plus the programs starting with BEGIN extended by one more statement (quick: COMMIT/ROLLBACK; thorough: any), each on a fresh store through sql.Engine.Exec in the observation modes all/last, against the reference interpreter: statement results, affected rows, generated keys, in-transaction view and outside view after every statement, Cancel of an abandoned transaction, close+reopen. Wire fronts (pgwire, session): every program over the 11-statement sub-alphabet up to front_*_length_completed. distinct = (front/mode, program) pairs executed", nOps), !c.Expired())
 }
